@@ -433,13 +433,14 @@ void execute_decode(const Plan& plan) {
           case kLocalTable: { Label l = a.new_label(); labels.push_back(l); embed_site(l); break; }
           case kCallStub: {
             // b / bl / adr with an ABSOLUTE target given as an immediate: PC-relative fields that depend on the base
-            int form = int(op.a[2] % 3);   // 0 b, 1 bl, 2 adr
+            int form = int(op.a[2] % 4);   // 0 b, 1 bl, 2 adr, 3 adrp (a 4 KiB page, relative to the page of the instruction)
             size_t before = a.offset();
-            int64_t reach = form == 2 ? (1 << 19) : (1 << 26);
+            int64_t reach = form == 2 ? (1 << 19) : form == 3 ? (1 << 19) - 1 /* pages; the relocator limits every pc-relative value to +-2 GiB, half of what adrp could reach */ : (1 << 26);
             uint64_t t = base + uint64_t(before) + uint64_t((int64_t(uint64_t(op.a[0]) % uint64_t(2 * reach)) - reach) & ~int64_t(form == 2 ? 0 : 3));
-            Error er = form == 0 ? aa.b(Imm(t)) : form == 1 ? aa.bl(Imm(t)) : aa.adr(a64::x(1), Imm(t));
+            if (form == 3) t = ((base + uint64_t(before)) & ~uint64_t(4095)) + (uint64_t(int64_t(uint64_t(op.a[0]) % uint64_t(2 * reach)) - reach) << 12);
+            Error er = form == 0 ? aa.b(Imm(t)) : form == 1 ? aa.bl(Imm(t)) : form == 2 ? aa.adr(a64::x(1), Imm(t)) : aa.adrp(a64::x(1), Imm(t));
             if (er == Error::kOk) sites.push_back(Site{3 + form, 0, before, a.offset(), t, Label(), false});
-            else SIM_CHECK(false, "c04:reachable-target-refused", "a64 %s onto %#llx (within reach of base %#llx) was refused with error %u", form == 0 ? "b" : form == 1 ? "bl" : "adr", (unsigned long long)t, (unsigned long long)base, unsigned(er));
+            else SIM_CHECK(false, "c04:reachable-target-refused", "a64 %s onto %#llx (within reach of base %#llx) was refused with error %u", form == 0 ? "b" : form == 1 ? "bl" : form == 2 ? "adr" : "adrp", (unsigned long long)t, (unsigned long long)base, unsigned(er));
             break;
           }
           default: nops(size_t(op.a[0] % 9)); break;
@@ -483,10 +484,11 @@ void execute_decode(const Plan& plan) {
           // AArch64 b / bl (imm26 * 4) and adr (immhi:immlo), relative to the address of the instruction itself
           uint32_t word; memcpy(&word, img.data() + sec_off + s.start, 4);
           int64_t rel;
-          if (s.kind == 5) { uint32_t immlo = (word >> 29) & 3, immhi = (word >> 5) & 0x7ffff; rel = int64_t(uint64_t(immhi << 2 | immlo) << 43) >> 43; }
+          if (s.kind >= 5) { uint32_t immlo = (word >> 29) & 3, immhi = (word >> 5) & 0x7ffff; rel = int64_t(uint64_t(immhi << 2 | immlo) << 43) >> 43; }
           else rel = (int64_t(uint64_t(word & 0x3ffffff) << 38) >> 38) * 4;
           uint64_t designated = base + sec_off + s.start + uint64_t(rel);
-          SIM_CHECK(designated == s.target, "c04:wrong-target", "a64 %s at offset %zu relocated to base %#llx (base %s at assembly time) designates %#llx, requested %#llx", s.kind == 3 ? "b" : s.kind == 4 ? "bl" : "adr", s.start,
+          if (s.kind == 6) designated = ((base + sec_off + s.start) & ~uint64_t(4095)) + (uint64_t(rel) << 12);
+          SIM_CHECK(designated == s.target, "c04:wrong-target", "a64 %s at offset %zu relocated to base %#llx (base %s at assembly time) designates %#llx, requested %#llx", s.kind == 3 ? "b" : s.kind == 4 ? "bl" : s.kind == 5 ? "adr" : "adrp", s.start,
                     (unsigned long long)base, known ? "known" : "unknown", (unsigned long long)designated, (unsigned long long)s.target);
           sim::count("c04.probe.decode_a64_branch");
         }
